@@ -255,9 +255,14 @@ func HarnessStalledSyncPeer(n int, disabled int) {
 
 // syncInv: what every event of the sync manager must preserve for the node to keep going:
 // a sync peer is a registered peer with its bookkeeping in place and headers are then expected;
-// and whenever a registered candidate is strictly ahead of our tip there is a sync peer.
+// whenever a registered candidate is strictly ahead of our tip there is a sync peer; and while a
+// request of ours to any registered peer is unanswered, headers are expected.
 func syncInv(sm *SyncManager, tip int32) bool {
 	cs := []bool{}
+	for p := range sm.peerStates {
+		// whoever we have asked for headers may answer: headers are then expected
+		cs = append(cs, !peerpkg.HarnessOutstandingGetHeaders(p) || sm.headersFirstMode)
+	}
 	if sm.syncPeer != nil {
 		_, registered := sm.peerStates[sm.syncPeer]
 		cs = append(cs, registered, sm.syncPeerState != nil, sm.headersFirstMode)
@@ -283,12 +288,18 @@ func HarnessSyncInvariantStep(m int, n int, disabled int) {
 		peers[i] = peerpkg.HarnessSyncCandidate(vh.Logger(), int32(i+1), vh.NondetI32("peerHeight"))
 		vh.Assume(peers[i].LastBlock() >= 0)
 		sm.peerStates[peers[i]] = &peerpkg.SyncState{SyncCandidate: vh.NondetBool("candidate")}
+		if vh.NondetBool("askedBefore") {
+			// an earlier request to this peer is still unanswered
+			h := vh.NondetHash("askedFrom")
+			_ = peers[i].PushGetHeadersMsg(domains.BlockLocator{&h}, &zeroHash)
+			_ = peerpkg.HarnessSent(peers[i])
+		}
 	}
 	if c := vh.Choose(m + 1); c < m {
 		sm.syncPeer = peers[c]
 		peers[c].SetSyncPeer(true)
-		idle := vh.NondetI64("idleSeconds")
-		vh.Assume(idle >= 0 && idle < 1<<20 && (idle <= 170 || idle >= 190))
+		// last progress: just now, within the stall limit, or beyond it (every idle time is covered by HarnessStalledSyncPeer)
+		idle := []int64{0, 170, 190, 100000}[vh.Choose(4)]
 		sm.syncPeerState = &syncPeerState{lastBlockTime: vh.Now().Add(-time.Duration(idle) * time.Second)}
 		sm.headersFirstMode = true
 	} else if vh.NondetBool("headersSeenBefore") {
